@@ -13,3 +13,6 @@ from common import REPO  # noqa
 files = sorted(os.path.relpath(p, REPO) for p in glob.glob(os.path.join(REPO, "py_trees", "*.py")))
 json.dump(drift.snapshot(files), open(drift.PINS, "w"), indent=0, sort_keys=True)
 print("pinned", len(files), "files")
+
+import py2lean  # noqa
+print("pinned", py2lean.pin(REPO), "translations")
